@@ -235,6 +235,14 @@ func (w *workload) client(node int, seed int64, wg *sync.WaitGroup, readOnly boo
 		}
 		logKey := fmt.Sprintf("log:%d", id)
 		ownKey := fmt.Sprintf("own:%d", id)
+		// key names are byte strings: some of the ledger's keys are not valid UTF-8 (whatever stores or ships the
+		// keyspace - log entries, snapshots - has to carry them unchanged)
+		if id%2 == 1 {
+			ownKey = fmt.Sprintf("own\xff\xfe:%d", id)
+		}
+		if id%4 == 1 {
+			logKey = fmt.Sprintf("log\x80\xc3:%d", id)
+		}
 		n := 0
 		for atomic.LoadInt32(&w.stop) == 0 {
 			n++
